@@ -6,4 +6,6 @@ INVARIANT PrefixFree
 INVARIANT LenBounds
 INVARIANT Canonical
 INVARIANT DepthMem
+INVARIANT Concat
+INVARIANT ConsumeAll
 CHECK_DEADLOCK FALSE
